@@ -360,6 +360,8 @@ pub unsafe extern "C" fn pthread_create(native: *mut libc::pthread_t, attr: *con
             if r != 0 {
                 drop(Box::from_raw(raw));
                 sim.abandon_child(tid);
+            } else if !native.is_null() {
+                remember_thread(*native, tid, sim.generation);
             }
             r
         }
@@ -456,4 +458,48 @@ pub unsafe extern "C" fn opendir(path: *const c_char) -> *mut libc::DIR {
         return std::ptr::null_mut();
     }
     out
+}
+
+// ---- joining a thread that lives in the simulation --------------------------------------------
+// `std::thread::JoinHandle::join` ends in pthread_join. If the joined thread is a simulated
+// thread it needs the baton to finish, so the caller must first wait in the scheduler.
+
+static JOIN_MAP: std::sync::Mutex<Vec<(libc::pthread_t, usize, u64)>> = std::sync::Mutex::new(Vec::new());
+
+pub fn remember_thread(t: libc::pthread_t, tid: usize, generation: u64) {
+    let mut m = JOIN_MAP.lock().unwrap_or_else(|e| e.into_inner());
+    if m.len() > 4096 {
+        m.drain(..2048);
+    }
+    m.push((t, tid, generation));
+}
+
+type JoinFn = unsafe extern "C" fn(libc::pthread_t, *mut *mut c_void) -> c_int;
+
+#[no_mangle]
+pub unsafe extern "C" fn pthread_join(t: libc::pthread_t, retval: *mut *mut c_void) -> c_int {
+    static mut REAL: Option<JoinFn> = None;
+    let real = match REAL {
+        Some(f) => f,
+        None => {
+            let p = libc::dlsym(libc::RTLD_NEXT, b"pthread_join\0".as_ptr() as *const c_char);
+            assert!(!p.is_null());
+            let f: JoinFn = std::mem::transmute(p);
+            REAL = Some(f);
+            f
+        }
+    };
+    if let Some((sim, me)) = simrt::current() {
+        let target = {
+            let m = JOIN_MAP.lock().unwrap_or_else(|e| e.into_inner());
+            m.iter().rev().find(|(pt, _, g)| *pt == t && *g == sim.generation).map(|(_, tid, _)| *tid)
+        };
+        if let Some(tid) = target {
+            if tid != me {
+                sim.probe("pthread_join_of_simulated_thread");
+                sim.block_join(me, tid);
+            }
+        }
+    }
+    real(t, retval)
 }
